@@ -25,7 +25,7 @@ def generate_cases(P, ctx):
             os.remove(out)
         env = {"VERIF_OUT": out, "VERIF_TIER": ctx["tier"], "VERIF_SEED": str(ctx["seed"])}
         r = core.tlc(ctx["sdir"], g[0], g[1], ctx["work"], env=env, workers=ctx["workers"],
-                     timeout=ctx["timeout"], constants=_tier_consts(g, ctx["tier"]))
+                     timeout=ctx["timeout"], constants=_tier_consts(g, ctx["tier"]), heap="12g")   # a 6g cap made a 2.7M-case generation thrash in GC for over an hour
         ctx["tlc_runs"].append(dict(kind="gen", module=g[0], cfg=g[1], generated=r["generated"],
                                     distinct=r["distinct"], wall=round(r["wall"], 1), cmd=r["cmd"]))
         if not os.path.exists(out):
